@@ -14,8 +14,8 @@ VERIF = os.path.dirname(os.path.dirname(os.path.abspath(__file__)))
 BUILD = os.environ.get("VERIF_BUILD", os.path.join(VERIF, "build"))
 JOBS = int(os.environ.get("VERIF_JOBS", "16"))
 
-SAN = ["-fsanitize=address,undefined", "-fno-sanitize-recover=undefined",
-       "-fno-sanitize=alignment", "-fno-sanitize=vptr"]
+SAN = os.environ.get("VERIF_SAN", "").split() or ["-fsanitize=address,undefined", "-fno-sanitize-recover=undefined",
+       "-fno-sanitize=alignment", "-fno-sanitize=vptr"]   # VERIF_SAN replaces the instrumentation (bin/coverage uses --coverage)
 COMMON = ["-O1", "-g1", "-fno-omit-frame-pointer", "-DNDEBUG", "-w"]
 
 CORE_DIRS = ["array", "client", "config", "convert", "event", "message", "meta",
@@ -132,7 +132,8 @@ def build_archives(bdir, variant, extra_defs, log):
                 log("BUILD-ERROR: ar " + o)
                 return None
             os.rename(tmp, arch)
-            shutil.rmtree(odir, ignore_errors=True)
+            if not os.environ.get("VERIF_SAN"):       # a coverage build needs the .gcno files next to the objects
+                shutil.rmtree(odir, ignore_errors=True)
     return out
 
 
